@@ -105,7 +105,7 @@ type Reply struct {
 	// Var != 0 varies the fields of the outer IP header that identify nothing: IPv4 TOS, ID, DF and TTL;
 	// IPv6 traffic class, flow label and hop limit (derived from the value).
 	Var uint32 `json:"var,omitempty"`
-	// Form: te28|teFull|te4884|teOpt|teRewr|teNat|teCode1|echo|unreach:<code>|synack|rst|rstack|sack|plainack|own
+	// Form: teXfam (cross-family look-alike, see replies.go)|te28|teFull|te4884|teOpt|teRewr|teNat|teCode1|echo|unreach:<code>|synack|rst|rstack|sack|plainack|own
 	Form    string `json:"form"`
 	DelayUs int64  `json:"delayUs"`
 	From    string `json:"from,omitempty"` // override responder
@@ -160,7 +160,7 @@ type Listener struct {
 // HTTPPlan scripts one public-IP provider (by position in the repo's provider list).
 type HTTPPlan struct {
 	Provider int      `json:"provider"`
-	Script   []string `json:"script"` // per connection, in order: refuse|closeEarly|status:<code>:<body>|stallBeforeHeaders|stallAfterHeaders|slowBody:<us>:<body>
+	Script   []string `json:"script"` // per connection, in order: refuse|closeEarly|status:<code>:<body>|stallBeforeHeaders|stallAfterHeaders|slowBody:<us>:<body>|splitBody:<pos>:<us>:<body>
 }
 
 // DNSPlan scripts the resolver for one address.
